@@ -471,7 +471,9 @@ func mkResize(a *Term, w int, srcSigned bool) *Term {
 
 // ---- Float64 ----
 
-func mkFConst(f float64) *Term { return &Term{op: "const", w: wFloat, val: math.Float64bits(f), size: 1} }
+func mkFConst(f float64) *Term {
+	return &Term{op: "const", w: wFloat, val: math.Float64bits(f), size: 1}
+}
 
 func mkFBin(op string, a, b *Term) *Term {
 	if a.isConst() && b.isConst() {
